@@ -37,7 +37,7 @@ func (r *Run) opDeviceAuthz(st Step) {
 		form.Set("audience", a)
 	}
 	basic := r.applyAuth(cs, st.A, form)
-	if st.A != "unknown_client" && st.p("no_client_id") == "" {
+	if st.A != "unknown_client" && st.A != "none" && st.p("no_client_id") == "" {
 		form.Set("client_id", cs.ID)
 	}
 	res := r.call("device", func() *Resp { return r.A.DeviceAuth(form, basic) })
@@ -50,12 +50,16 @@ func (r *Run) opDeviceAuthz(st Step) {
 	}
 	if dc == "" {
 		r.logf("%s -> %d %s", desc, res.Status, res.ErrName)
-		if !authValid(cs, st.A) && !r.anyFault() && res.ErrName != "invalid_client" && res.ErrName != "invalid_request" {
+		if !r.authOK(cs, st.A) {
+			r.probe("bad-client-auth:device_authorization")
+			r.noWrites("device_authorization", desc)
+		}
+		if !r.authOK(cs, st.A) && !r.anyFault() && res.ErrName != "invalid_client" && res.ErrName != "invalid_request" {
 			r.violate("C10", "wrong-error-class", "device_authorization", "%s: expected invalid_client/invalid_request, got %s", desc, res.ErrName)
 		}
 		return
 	}
-	if !authValid(cs, st.A) {
+	if !r.authOK(cs, st.A) {
 		r.violate("C10", "processed-without-client-auth", "device_authorization", "%s: a device authorization was started although client authentication was invalid", desc)
 	}
 	if r.Fault.mustRefuse() {
@@ -183,7 +187,7 @@ func (r *Run) opDeviceToken(st Step) {
 		r.resync(g, "a mutated device code was presented")
 		return
 	}
-	if !authValid(cs, st.A) {
+	if !r.authOK(cs, st.A) {
 		r.judgeBadAuth("device_code", desc, res)
 		return
 	}
@@ -354,7 +358,7 @@ func (r *Run) opPARPush(st Step) {
 		form.Set("request_uri", r.W.K.DocPARPrefix()+"embedded")
 	}
 	basic := r.applyAuth(cs, st.A, form)
-	if form.Get("client_id") == "" && st.p("no_client_id") == "" && st.A != "unknown_client" {
+	if form.Get("client_id") == "" && st.p("no_client_id") == "" && st.A != "unknown_client" && st.A != "none" {
 		form.Set("client_id", cs.ID)
 	}
 	res := r.call("par", func() *Resp { return r.A.PAR(form, basic) })
@@ -367,12 +371,16 @@ func (r *Run) opPARPush(st Step) {
 	}
 	if uri == "" {
 		r.logf("%s -> %d %s", desc, res.Status, res.ErrName)
-		if !authValid(cs, st.A) && !r.anyFault() && res.ErrName != "invalid_client" && res.ErrName != "invalid_request" {
+		if !r.authOK(cs, st.A) {
+			r.probe("bad-client-auth:par")
+			r.noWrites("par", desc)
+		}
+		if !r.authOK(cs, st.A) && !r.anyFault() && res.ErrName != "invalid_client" && res.ErrName != "invalid_request" {
 			r.violate("C10", "wrong-error-class", "par", "%s: expected invalid_client/invalid_request, got %s", desc, res.ErrName)
 		}
 		return
 	}
-	if !authValid(cs, st.A) {
+	if !r.authOK(cs, st.A) {
 		r.violate("C10", "processed-without-client-auth", "par", "%s: a request was pushed although client authentication was invalid", desc)
 		r.violate("C17", "push-without-client-auth", "", "%s: a request was pushed although client authentication was invalid", desc)
 	}
@@ -671,15 +679,15 @@ func (r *Run) opJWTBearer(st Step) {
 	if res.Crashed || !tokens {
 		return
 	}
-	if !authValid(cs, st.A) && !r.W.K.JWTBearerSkipClientAuth {
+	if !r.authOK(cs, st.A) && !r.W.K.JWTBearerSkipClientAuth {
 		r.judgeBadAuth("jwt_bearer", desc, res)
 	}
 	if r.Fault.mustRefuse() {
 		r.violate("C18", "tokens-despite-storage-failure", "jwt_bearer", "%s: a storage call failed (%s) but the response carries tokens", desc, r.Fault.desc())
 	}
 	g := r.L.NewGrant(&Grant{Client: cs.ID, Origin: "jwt_bearer", Subject: b.Subject, Scopes: splitNonEmpty(st.p("scope")), Audience: []string{TokenURL}, ReqAt: r.now()})
-	if st.A == "none" {
-		g.Client = ""
+	if !r.authOK(cs, st.A) {
+		g.Client = "" // client authentication was skipped (GrantTypeJWTBearerCanSkipClientAuth): no client is bound
 	}
 	at, rt, id := r.recordTokenResponse(res, g, 0, "jwt_bearer", cs)
 	r.logf("   grant %d issued %s", g.N, credNames(at, rt, id))
@@ -720,7 +728,7 @@ func (r *Run) opClientChange(st Step) {
 	case "add_scope":
 		cs.Scopes = appendUniq(cs.Scopes, arg)
 	case "rotate_secret":
-		if !cs.Public {
+		if !cs.Public && cs.Secret != "" {
 			cs.Rotated = append(cs.Rotated, cs.Secret)
 			cs.Secret = arg
 			r.secret(arg, "client_secret")
